@@ -441,6 +441,9 @@ def run(rep, tier):
     # "the right thread": the completion message of a broadcast is addressed to its originator (rule lives in C10)
     from props import c10
     rep.floor("completion post sites", c10.completion_destination(rep, u), 2)
+    # "exactly once ... on the right thread" for the relayed (one-by-one) form: the walk serves the caller once and skips it -
+    # and nobody else - on every hop (C10's finite-domain evaluation of the two guards)
+    rep.floor("self-serving flag combinations", c10.self_once(rep, u), 4)
     return driver.finish(
         rep, "other",
         "Static analysis of threadpool_msg_sys.c. Decided: all %d acyclic paths of tpt_msg_send fall into the seven "
